@@ -84,6 +84,7 @@ def plan(tier, seed):
     shards.append({'kind': 'text', 'supply': 'placed', 'n': 800 if tier == 'quick' else 8000})
     shards.append({'kind': 'blank', 'supply': 'table'})
     shards.append({'kind': 'date', 'supply': 'datecall'})
+    shards.append({'kind': 'date', 'supply': 'isodates', 'n': 2 if tier == 'quick' else 30})
     return shards
 
 
@@ -357,9 +358,46 @@ def run_datecall(shard, ctx):
     r.sample({'date_call_operands': [cells[f1['<']], cells[b1['<']], cells[t1['>=']]]})
 
 
+def run_isodates(shard, ctx):
+    """dates as CELLS of a workbook that stores them in ISO 8601 form (date-only cells are read back as datetime.date): date-only
+    against date-time cells and overrides, exact order, a date equals the date-time at its midnight"""
+    r, rng = ctx.r, ctx.rng
+    days = [D0.date() + dt.timedelta(days=k) for k in (-1, 0, 0, 1, 30, 366, -400)]
+    moments = [D0 + dt.timedelta(days=k, seconds=s_) for k in (-1, 0, 1, 30) for s_ in (0, 1, 43200, 86399)]
+    for b in range(shard.get('n', 2)):
+        cells, where = {}, []
+        for i in range(1, 13):
+            a, bb = rng.choice(days), rng.choice(moments + days)
+            cells[f'A{i}'], cells[f'B{i}'] = a, bb
+            for k, op in enumerate(OPS):
+                for (x, y, tag) in ((f'A{i}', f'B{i}', 'ab'), (f'B{i}', f'A{i}', 'ba')):
+                    addr = wbspec.a1(i, 4 + 2 * k + (tag == 'ba'))
+                    cells[addr] = f'={x}{op}{y}'
+                    where.append((addr, op, x, y))
+        spec = wbspec.spec(wbspec.sheet('S1', cells))
+        spec['iso_dates'] = True
+        book = pipeline.Book(spec, ctx.workdir, name=f'iso{b}')
+        r.count('iso_date_books')
+        for val in ([], [(0, f'A{rng.randrange(1, 13)}', rng.choice(moments)) for _ in range(3)], [(0, f'B{rng.randrange(1, 13)}', rng.choice(days)) for _ in range(3)]):
+            cur = {**{k: v for k, v in cells.items() if not isinstance(v, str)}, **{a: v for (_, a, v) in val}}
+            outs = book.values(0, [w[0] for w in where], val)
+            for (addr, op, x, y), o in zip(where, outs):
+                r.ev()
+                r.count('exact_checks')
+                exp = PYOP[op](sem('date', cur[x]), sem('date', cur[y]))
+                if _as_bool(o) is not exp:
+                    report(r, ID, None, {'kind': 'isodates', 'formula': cells[addr], 'left': cur[x], 'right': cur[y], 'overrides': val, 'spec': spec}, o.brief(), exp,
+                           monitor='compare-laws')
+                r.nt(('iso', b, addr, len(val)))
+
+
 def run_shard(shard, ctx):
+    if shard.get('supply') == 'isodates':
+        return run_isodates(shard, ctx)
     if 'replay' in shard:
         c = shard['replay']
+        if c.get('kind') == 'isodates':
+            return run_isodates({'n': 2}, ctx)
         if c.get('kind') == 'datecall':
             return run_datecall({}, ctx)
         if c.get('kind') == 'blank':
